@@ -92,28 +92,6 @@ func c08RefsMem() []c08Ref {
 			}
 			return c08X{gas: c08Ghigh, checkPC: true, pcNext: c.args[0].Uint64()}
 		}},
-		{op: SHA3, name: "sha3", pops: 2, pre: func(a []*big.Int) { c08Window(a, 0, 1) }, f: func(c *c08Ctx) c08X {
-			n := c08Len(c.args[1])
-			return c08X{gas: 30 + 6*c08Words(n), memOff: c.args[0], memLen: n, pushFromImg: func(img []byte) []*big.Int {
-				var win []byte
-				if n > 0 {
-					win = img[c.args[0].Uint64() : c.args[0].Uint64()+n]
-				}
-				return []*big.Int{new(big.Int).SetBytes(crypto.Keccak256(win))}
-			}}
-		}},
-		{op: CALLDATACOPY, name: "calldatacopy", pops: 3, pre: func(a []*big.Int) { c08Window(a, 0, 2) }, f: func(c *c08Ctx) c08X {
-			n := c08Len(c.args[2])
-			return c08X{gas: c08Gverylow + 3*c08Words(n), memOff: c.args[0], memLen: n, write: func(m []byte) {
-				c08CopyPadded(m, c.args[0].Uint64(), c.input, c.args[1], n)
-			}}
-		}},
-		{op: CODECOPY, name: "codecopy", pops: 3, pre: func(a []*big.Int) { c08Window(a, 0, 2) }, f: func(c *c08Ctx) c08X {
-			n := c08Len(c.args[2])
-			return c08X{gas: c08Gverylow + 3*c08Words(n), memOff: c.args[0], memLen: n, write: func(m []byte) {
-				c08CopyPadded(m, c.args[0].Uint64(), c.code, c.args[1], n)
-			}}
-		}},
 		{op: SLOAD, name: "sload", pops: 1, f: func(c *c08Ctx) c08X {
 			v := c.db.GetState(c.self, c08Hash(c.args[0]))
 			return c08X{push: []*big.Int{new(big.Int).SetBytes(v[:])}, gas: c.gasTable.SLoad}
@@ -149,6 +127,28 @@ func c08RefsMem() []c08Ref {
 			return c08X{gas: 10 + c.gasTable.ExpByte*nbytes, anyPush: 1}
 		}},
 		{op: STOP, name: "stop", pops: 0, f: func(c *c08Ctx) c08X { return c08X{halt: true, retOff: new(big.Int)} }},
+		{op: SHA3, name: "sha3", pops: 2, pre: func(a []*big.Int) { c08Window(a, 0, 1) }, f: func(c *c08Ctx) c08X {
+			n := c08Len(c.args[1])
+			return c08X{gas: 30 + 6*c08Words(n), memOff: c.args[0], memLen: n, pushFromImg: func(img []byte) []*big.Int {
+				var win []byte
+				if n > 0 {
+					win = img[c.args[0].Uint64() : c.args[0].Uint64()+n]
+				}
+				return []*big.Int{new(big.Int).SetBytes(crypto.Keccak256(win))}
+			}}
+		}},
+		{op: CALLDATACOPY, name: "calldatacopy", pops: 3, pre: func(a []*big.Int) { c08Window(a, 0, 2) }, f: func(c *c08Ctx) c08X {
+			n := c08Len(c.args[2])
+			return c08X{gas: c08Gverylow + 3*c08Words(n), memOff: c.args[0], memLen: n, write: func(m []byte) {
+				c08CopyPadded(m, c.args[0].Uint64(), c.input, c.args[1], n)
+			}}
+		}},
+		{op: CODECOPY, name: "codecopy", pops: 3, pre: func(a []*big.Int) { c08Window(a, 0, 2) }, f: func(c *c08Ctx) c08X {
+			n := c08Len(c.args[2])
+			return c08X{gas: c08Gverylow + 3*c08Words(n), memOff: c.args[0], memLen: n, write: func(m []byte) {
+				c08CopyPadded(m, c.args[0].Uint64(), c.code, c.args[1], n)
+			}}
+		}},
 		{op: RETURN, name: "return", pops: 2, pre: func(a []*big.Int) { c08Window(a, 0, 1) }, f: func(c *c08Ctx) c08X {
 			return c08X{halt: true, memOff: c.args[0], memLen: c08Len(c.args[1]), retOff: c.args[0], retLen: c08Len(c.args[1])}
 		}},
